@@ -2,7 +2,7 @@
 a recorded execution of the real code is accepted; the same execution with one field corrupted or one event removed
 is rejected (TRACE-I) or judged violating (TRACE-P).  Exit 0 when every demonstration behaves as expected."""
 import copy, json, random
-import common, pipe_run, fam_pipe, fam_skiplist
+import common, pipe_run, fam_pipe, fam_skiplist, trace_i
 from fam_pipe import C
 
 
@@ -17,7 +17,7 @@ def main():
     with common.Scratch() as d:
         tr = pipe_run.run_schedules(binp, sch, d)
         viols, _ = pipe_run.judge(tr, d, tag="ok")
-        acc, rej, _ = pipe_run.bind_stage(tr, d, tag="ok")
+        acc, rej, _ = trace_i.bind("Stage", tr, d, tag="ok")
         print("selftest pipe: %d recorded executions: TRACE-P failing=%d, TRACE-I accepted=%d rejected=%d" % (len(tr), len(viols), acc, len(rej)))
         ok &= not viols and not rej
         # (a) a received value is changed: TRACE-P must flag Prefix, TRACE-I must reject
@@ -30,7 +30,7 @@ def main():
                 bad.append(t)
         v, _ = pipe_run.judge(bad, d, tag="badv")
         flagged = {ti for ti, w, p in v}
-        acc, rej, _ = pipe_run.bind_stage(bad, d, tag="badv")
+        acc, rej, _ = trace_i.bind("Stage", bad, d, tag="badv")
         print("selftest pipe: corrupted value in %d executions: TRACE-P flags %d, TRACE-I rejects %d" % (len(bad), len(flagged), len(rej)))
         ok &= len(flagged) == len(bad) and len(rej) == len(bad)
         # (b) the goroutine count of one snapshot is changed: TRACE-I must reject
@@ -39,7 +39,7 @@ def main():
             t = copy.deepcopy(t)
             t["wins"][len(t["wins"]) // 2]["q"]["live"] += 1
             bad.append(t)
-        acc, rej, _ = pipe_run.bind_stage(bad, d, tag="badl")
+        acc, rej, _ = trace_i.bind("Stage", bad, d, tag="badl")
         print("selftest pipe: corrupted live count in %d executions: TRACE-I rejects %d" % (len(bad), len(rej)))
         ok &= len(rej) == len(bad)
         # (c) one completion is removed from the log: TRACE-I must reject
@@ -51,7 +51,7 @@ def main():
                     w["done"].pop(0)
                     bad.append(t)
                     break
-        acc, rej, _ = pipe_run.bind_stage(bad, d, tag="bade")
+        acc, rej, _ = trace_i.bind("Stage", bad, d, tag="bade")
         print("selftest pipe: removed event in %d executions: TRACE-I rejects %d" % (len(bad), len(rej)))
         ok &= len(rej) == len(bad)
     # skip list: a recorded random history is accepted; with one result changed it is flagged
